@@ -584,6 +584,14 @@ func c15Ints(toks []string) ([]int, bool) {
 }
 
 func runC15(c Case, m *Model) (v Verdict) {
+	v = runC15Op(c, m)
+	if msg := retainCheck(); msg != "" {
+		v.Oracle = append(v.Oracle, msg)
+	}
+	return
+}
+
+func runC15Op(c Case, m *Model) (v Verdict) {
 	toks := strings.Fields(c.Op)
 	if len(toks) == 0 {
 		v.Mismatch = append(v.Mismatch, "empty op")
@@ -593,6 +601,9 @@ func runC15(c Case, m *Model) (v Verdict) {
 	mism := func(format string, a ...interface{}) { v.Mismatch = append(v.Mismatch, short(fmt.Sprintf(format, a...))) }
 	// wellFormed: FF / type / length / payload with the type byte of SMF 1.0 and the expected payload size
 	wellFormed := func(msg []byte, typ byte, size int) {
+		if len(msg) < 70000 {
+			retain("a meta constructor", msg)
+		}
 		t, d, ok := specParseMeta(msg)
 		if !ok || t != typ || len(d) != size {
 			oracle("constructor output is not a well-formed FF %02X <len=%d> event: % X", typ, size, c15Head(msg, 24))
